@@ -449,7 +449,7 @@ impl Prop for C13 {
         20
     }
     fn cases(tier: Tier) -> u64 {
-        tier.pick(3000, 80_000)
+        tier.pick(30_000, 500_000)
     }
     fn strategy(tier: Tier) -> BoxedStrategy<Case> {
         let mc = gen::tier_chroms(tier);
@@ -473,8 +473,12 @@ impl Prop for C13 {
                 let sorted = o.sorted_chroms;
                 (gen::bw_input(mc, 30, sorted), Just((o, inject, cs, is, deg)))
             })
-            .prop_map(|(input, (o, inject, cs, is, deg))| {
+            .prop_map(|(input, (mut o, inject, cs, is, deg))| {
                 let deg = if inject == Inject::None { deg } else { Degenerate::No };
+                // keep the number of zoom sections (one spawned task each) small: cases must stay
+                // milliseconds long so that the termination deadline means something
+                let bases: u64 = input.chroms.iter().map(|c| c.vals.iter().map(|v| (v.e - v.s) as u64).sum::<u64>()).sum();
+                gen::tame_zooms(bases, input.n_items() as u64, &mut o, 1500);
                 Case {
                     base: Base::Bw(degenerate_bw(deg, input)),
                     opts: o,
@@ -504,8 +508,10 @@ impl Prop for C13 {
                 let sorted = o.sorted_chroms;
                 (gen::bb_input(mc, 30, sorted, true), Just((o, inject, cs, is, deg)))
             })
-            .prop_map(|(mut input, (o, inject, cs, is, deg))| {
+            .prop_map(|(mut input, (mut o, inject, cs, is, deg))| {
                 let deg = if inject == Inject::None { deg } else { Degenerate::No };
+                let bases: u64 = input.chroms.iter().map(|c| c.entries.iter().map(|v| (v.e - v.s) as u64).sum::<u64>()).sum();
+                gen::tame_zooms(bases, input.n_items() as u64, &mut o, 1500);
                 // arbitrary autoSql text belongs to C19 (parser totality): keep the default here
                 input.autosql = None;
                 Case {
